@@ -448,8 +448,22 @@ func (n *normalizer) sroaEdits(f *ast.File) []textEdit {
 			inits map[string]string
 			bad   bool
 			sels  []*ast.SelectorExpr
+			extra []textEdit
+			nuse  int
+			// replacement text of selections that go through an embedded field
+			selText map[*ast.SelectorExpr]string
 		}
 		cands := map[types.Object]*cand{}
+		// variables that exist under this name on the pinned tree keep the form the rules know:
+		// only the selections-only split applies to them
+		pinnedVar := map[string]bool{}
+		if fn, ok := info.Defs[fd.Name].(*types.Func); ok {
+			for _, e := range knownLocals[fn.FullName()] {
+				if e.Kind == "local" {
+					pinnedVar[e.Name] = true
+				}
+			}
+		}
 		litInits := func(lit *ast.CompositeLit, st *types.Struct) (map[string]string, bool) {
 			out := map[string]string{}
 			for _, el := range lit.Elts {
@@ -486,7 +500,7 @@ func (n *normalizer) sroaEdits(f *ast.File) []textEdit {
 				}
 				c := &cand{obj: o, st: st, decl: y, inits: map[string]string{}}
 				if len(vs.Values) == 1 {
-					lit, ok := vs.Values[0].(*ast.CompositeLit)
+					lit, ok := unparen(vs.Values[0]).(*ast.CompositeLit)
 					if !ok {
 						return true
 					}
@@ -500,7 +514,7 @@ func (n *normalizer) sroaEdits(f *ast.File) []textEdit {
 					return true
 				}
 				id, ok := y.Lhs[0].(*ast.Ident)
-				lit, ok2 := y.Rhs[0].(*ast.CompositeLit)
+				lit, ok2 := unparen(y.Rhs[0]).(*ast.CompositeLit)
 				if !ok || !ok2 || id.Name == "_" {
 					return true
 				}
@@ -524,6 +538,70 @@ func (n *normalizer) sroaEdits(f *ast.File) []textEdit {
 			continue
 		}
 		// uses
+		// whole assignments: position i of `.., v, .. = .., T{..} | w, ..` (no multi-value call)
+		type wholeAssign struct {
+			lhsID *ast.Ident
+			rhs   ast.Expr
+			lhs   *cand
+		}
+		var assigns []wholeAssign
+		inAssign := map[*ast.Ident]bool{} // identifiers handled by a whole-assignment edit
+		candNames := map[string]bool{}
+		for o := range cands {
+			candNames[o.Name()] = true
+		}
+		ast.Inspect(fd.Body, func(x ast.Node) bool {
+			as, ok := x.(*ast.AssignStmt)
+			if !ok || as.Tok != token.ASSIGN || len(as.Lhs) != len(as.Rhs) {
+				return true
+			}
+			for i := range as.Lhs {
+				id, ok := as.Lhs[i].(*ast.Ident)
+				if !ok {
+					continue
+				}
+				c := cands[info.Uses[id]]
+				if c == nil || pinnedVar[id.Name] {
+					continue
+				}
+				switch r := unparen(as.Rhs[i]).(type) {
+				case *ast.CompositeLit:
+					if tv, ok := info.Types[r]; !ok || !types.Identical(tv.Type, c.obj.Type()) {
+						continue
+					}
+					if _, ok := litInits(r, c.st); !ok {
+						continue
+					}
+					// the literal's values must not mention a variable that is split (the edits would nest)
+					mentions := false
+					for _, nm := range identsOf(r) {
+						if candNames[nm] {
+							mentions = true
+						}
+					}
+					if mentions {
+						continue
+					}
+				case *ast.Ident:
+					if ro := info.Uses[r]; ro == nil || !types.Identical(ro.Type(), c.obj.Type()) || ro == c.obj {
+						continue
+					} else if _, isVar := ro.(*types.Var); !isVar {
+						continue
+					}
+					inAssign[r] = true
+				default:
+					continue
+				}
+				inAssign[id] = true
+				assigns = append(assigns, wholeAssign{id, as.Rhs[i], c})
+			}
+			return true
+		})
+		type wholeRead struct {
+			id *ast.Ident
+			c  *cand
+		}
+		var reads []wholeRead
 		var stack []ast.Node
 		ast.Inspect(fd.Body, func(x ast.Node) bool {
 			if x == nil {
@@ -539,19 +617,147 @@ func (n *normalizer) sroaEdits(f *ast.File) []textEdit {
 			if c == nil {
 				return true
 			}
+			if inAssign[id] {
+				return true
+			}
 			if len(stack) >= 2 {
 				if sel, ok := stack[len(stack)-2].(*ast.SelectorExpr); ok && sel.X == ast.Expr(id) {
 					if s := info.Selections[sel]; s != nil && s.Kind() == types.FieldVal && len(s.Index()) == 1 {
 						c.sels = append(c.sels, sel)
 						return true
 					}
+					// a field or method promoted from an embedded struct field: f.Type is f.extHdr.Type
+					if s := info.Selections[sel]; s != nil && (s.Kind() == types.FieldVal || s.Kind() == types.MethodVal) && len(s.Index()) >= 2 && !pinnedVar[id.Name] {
+						idx := s.Index()
+						f0 := c.st.Field(idx[0])
+						if _, isStruct := f0.Type().Underlying().(*types.Struct); isStruct && f0.Embedded() {
+							txt := c.obj.Name() + "_" + f0.Name()
+							t := f0.Type()
+							okPath := true
+							for _, j := range idx[1 : len(idx)-1] {
+								st2, ok := t.Underlying().(*types.Struct)
+								if !ok || j >= st2.NumFields() {
+									okPath = false
+									break
+								}
+								txt += "." + st2.Field(j).Name()
+								t = st2.Field(j).Type()
+							}
+							if okPath {
+								if c.selText == nil {
+									c.selText = map[*ast.SelectorExpr]string{}
+								}
+								c.selText[sel] = txt + "." + sel.Sel.Name
+								c.sels = append(c.sels, sel)
+								return true
+							}
+						}
+					}
+				}
+				// the struct read as a whole where only its value matters
+				rvalue := false
+				switch p := stack[len(stack)-2].(type) {
+				case *ast.ReturnStmt:
+					rvalue = true
+				case *ast.SendStmt:
+					rvalue = p.Value == ast.Expr(id)
+				case *ast.CallExpr:
+					if tv, ok := info.Types[p.Fun]; ok && !tv.IsBuiltin() && tv.IsValue() {
+						for _, a := range p.Args {
+							if a == ast.Expr(id) {
+								rvalue = true
+							}
+						}
+					}
+				case *ast.AssignStmt:
+					for _, a := range p.Rhs {
+						if a == ast.Expr(id) {
+							rvalue = true
+						}
+					}
+				case *ast.KeyValueExpr:
+					rvalue = p.Value == ast.Expr(id)
+				}
+				if rvalue && !pinnedVar[id.Name] {
+					reads = append(reads, wholeRead{id, c})
+					return true
 				}
 			}
 			c.bad = true
 			return true
 		})
+		typeText := func(c *cand) string { return types.TypeString(c.obj.Type(), q) }
+		splittable := func(c *cand) bool {
+			if c.bad || c.st.NumFields() == 0 || c.st.NumFields() > 16 {
+				return false
+			}
+			for i := 0; i < c.st.NumFields(); i++ {
+				fv := c.st.Field(i)
+				if fv.Name() == "_" || (!fv.Exported() && fv.Pkg() != n.pkg.Types) {
+					return false
+				}
+				if _, isStruct := fv.Type().Underlying().(*types.Struct); fv.Embedded() && !isStruct {
+					return false
+				}
+			}
+			return true
+		}
+		for _, wa := range assigns {
+			c := wa.lhs
+			if !splittable(c) {
+				// the target stays a struct: a source that is split is read as a whole
+				if r, ok := unparen(wa.rhs).(*ast.Ident); ok {
+					if rc := cands[info.Uses[r]]; rc != nil {
+						reads = append(reads, wholeRead{r, rc})
+					}
+				}
+				continue
+			}
+			var l, r []string
+			switch rhs := unparen(wa.rhs).(type) {
+			case *ast.CompositeLit:
+				inits, _ := litInits(rhs, c.st)
+				for i := 0; i < c.st.NumFields(); i++ {
+					fv := c.st.Field(i)
+					l = append(l, c.obj.Name()+"_"+fv.Name())
+					if v, has := inits[fv.Name()]; has {
+						r = append(r, v)
+					} else {
+						r = append(r, "*new("+types.TypeString(fv.Type(), q)+")")
+					}
+				}
+			case *ast.Ident:
+				rc := cands[info.Uses[rhs]]
+				for i := 0; i < c.st.NumFields(); i++ {
+					fv := c.st.Field(i)
+					l = append(l, c.obj.Name()+"_"+fv.Name())
+					if rc != nil && splittable(rc) {
+						r = append(r, rc.obj.Name()+"_"+fv.Name())
+					} else {
+						r = append(r, rhs.Name+"."+fv.Name())
+					}
+				}
+			}
+			c.extra = append(c.extra,
+				textEdit{n.off(wa.lhsID.Pos()), n.off(wa.lhsID.End()), strings.Join(l, ", ")},
+				textEdit{n.off(wa.rhs.Pos()), n.off(wa.rhs.End()), strings.Join(r, ", ")})
+			c.nuse++
+		}
+		for _, wr := range reads {
+			c := wr.c
+			if !splittable(c) {
+				continue
+			}
+			var parts []string
+			for i := 0; i < c.st.NumFields(); i++ {
+				fv := c.st.Field(i)
+				parts = append(parts, fv.Name()+": "+c.obj.Name()+"_"+fv.Name())
+			}
+			c.extra = append(c.extra, textEdit{n.off(wr.id.Pos()), n.off(wr.id.End()), typeText(c) + "{" + strings.Join(parts, ", ") + "}"})
+			c.nuse++
+		}
 		for _, c := range cands {
-			if c.bad || len(c.sels) == 0 || c.st.NumFields() == 0 || c.st.NumFields() > 16 {
+			if c.bad || len(c.sels)+c.nuse == 0 || c.st.NumFields() == 0 || c.st.NumFields() > 16 {
 				continue
 			}
 			// embedded fields, blank fields and name clashes are left alone
@@ -561,7 +767,7 @@ func (n *normalizer) sroaEdits(f *ast.File) []textEdit {
 			for i := 0; i < c.st.NumFields(); i++ {
 				fv := c.st.Field(i)
 				nm := c.obj.Name() + "_" + fv.Name()
-				if fv.Embedded() || fv.Name() == "_" {
+				if _, isStruct := fv.Type().Underlying().(*types.Struct); fv.Name() == "_" || (fv.Embedded() && !isStruct) {
 					okF = false
 					break
 				}
@@ -582,10 +788,25 @@ func (n *normalizer) sroaEdits(f *ast.File) []textEdit {
 			}
 			edits = append(edits, textEdit{n.off(c.decl.Pos()), n.off(c.decl.End()), decl.String()})
 			for _, sel := range c.sels {
+				if txt, has := c.selText[sel]; has {
+					edits = append(edits, textEdit{n.off(sel.Pos()), n.off(sel.End()), txt})
+					continue
+				}
 				edits = append(edits, textEdit{n.off(sel.Pos()), n.off(sel.End()), c.obj.Name() + "_" + sel.Sel.Name})
 			}
+			edits = append(edits, c.extra...)
 			n.log = append(n.log, fmt.Sprintf("%s: local struct %s split into its fields", n.fset.Position(c.decl.Pos()), c.obj.Name()))
 		}
 	}
 	return edits
+}
+
+func unparen(e ast.Expr) ast.Expr {
+	for {
+		p, ok := e.(*ast.ParenExpr)
+		if !ok {
+			return e
+		}
+		e = p.X
+	}
 }
